@@ -946,16 +946,19 @@ static size_t ZDICT_addEntropyTablesFromBuffer_advanced(
     U32 const notificationLevel = params.notificationLevel;
     size_t hSize = 8;
 
-    /* the header, the entropy tables and the content (stored at the end of the buffer) must all fit */
-    if (dictBufferCapacity < hSize) return ERROR(dstSize_tooSmall);
-    if (dictContentSize > dictBufferCapacity - hSize) return ERROR(dstSize_tooSmall);
-    /* the default repeat offsets stored in the header must point inside the content */
-    if (dictContentSize < (size_t)ZDICT_maxRep(repStartValue)) return ERROR(dictionaryCreation_failed);
+    size_t const minContentSize = (size_t)ZDICT_maxRep(repStartValue);
+
+    /* The header and entropy tables may overwrite the beginning of the content
+     * (the dictionary is then truncated to dictBufferCapacity), but enough content
+     * must survive for the default repeat offsets stored in the header to be valid. */
+    if (dictContentSize > dictBufferCapacity) return ERROR(dstSize_tooSmall);
+    if (dictContentSize < minContentSize) return ERROR(dictionaryCreation_failed);
+    if (dictBufferCapacity < hSize + minContentSize) return ERROR(dstSize_tooSmall);
 
     /* calculate entropy tables */
     DISPLAYLEVEL(2, "\r%70s\r", "");   /* clean display line */
     DISPLAYLEVEL(2, "statistics ... \n");
-    {   size_t const eSize = ZDICT_analyzeEntropy((char*)dictBuffer+hSize, dictBufferCapacity-hSize-dictContentSize,   /* never overwrite the content */
+    {   size_t const eSize = ZDICT_analyzeEntropy((char*)dictBuffer+hSize, dictBufferCapacity-hSize-minContentSize,   /* keep at least minContentSize bytes of content */
                                   compressionLevel,
                                   samplesBuffer, samplesSizes, nbSamples,
                                   (char*)dictBuffer + dictBufferCapacity - dictContentSize, dictContentSize,
